@@ -281,6 +281,9 @@ def execute(program, ch: Chooser) -> Result:  # noqa: C901, PLR0912, PLR0915
                 if rep[bad][1] is None:
                     continue  # nothing is invalid for this attribute (Any)
                 ops.append((f"updated {','.join(subset)} invalid={bad}", ("upd", subset, ("bad", bad))))
+            if len(subset) == 1 and cls.__ATTRIBUTES__[subset[0]].default is not MISSING or (len(subset) == 1 and name == "MissT"):
+                # replacing with MISSING means "not given": the attribute falls back to its default
+                ops.append((f"updated {subset[0]}=MISSING", ("upd", subset, ("missing", subset[0]))))
             if len(subset) == 1 and _equal_but_invalid(getattr(inst, subset[0], None)) is not None:
                 # a replacement that compares == to the current value but has a type the
                 # annotation rejects (1.0 for 1, (1.0, 2.0) for (1, 2) ...) must be re-validated
@@ -324,6 +327,8 @@ def execute(program, ch: Chooser) -> Result:  # noqa: C901, PLR0912, PLR0915
             expect_fail = False
             if extra == "unknown":
                 kw["unknown_name"] = 1
+            elif isinstance(extra, tuple) and extra[0] == "missing":
+                kw = {extra[1]: MISSING}
             elif isinstance(extra, tuple) and extra[0] == "eqbad":
                 kw = {extra[1]: _equal_but_invalid(getattr(inst, extra[1]))}
                 expect_fail = True
